@@ -4,6 +4,8 @@
 package spec
 
 import (
+	"time"
+
 	"verif/harness/ops"
 )
 
@@ -22,6 +24,7 @@ type Faults struct {
 	ClockJump    bool `json:"clock_jump"`
 	ZoneChange   bool `json:"zone_change"`
 	MapOrder     bool `json:"map_order"`
+	Flood        bool `json:"flood,omitempty"`
 }
 
 type Config struct {
@@ -51,6 +54,18 @@ type Step struct {
 	Clock *int64 `json:"clock,omitempty"` // advance the simulated wall clock by this many seconds (fault clock_jump)
 	// Fault marks a step that the generator inserted as a fault (invalid input, evictor); informational
 	Fault string `json:"fault,omitempty"`
+	// Flood: a volume fault - Count distinct valid calls of one kind made back to back, none of them compared (they are
+	// load: what pushes a bounded cache, pool or table in the library past its capacity); the witnesses around it are
+	Flood *Flood `json:"flood,omitempty"`
+}
+
+// Flood describes Count calls derived from one template: call i is Op with its year (Unit "year": first argument) or its
+// civil day (Unit "day": first three arguments, stepped through Go's time package in UTC) moved on by i*Stride.
+type Flood struct {
+	Op     ops.Op `json:"op"`
+	Unit   string `json:"unit"`
+	Count  int    `json:"count"`
+	Stride int    `json:"stride"`
 }
 
 type Pub struct {
@@ -94,14 +109,22 @@ type TieRef struct {
 
 // HStep is one step of a holiday history (C14).
 type HStep struct {
-	Fix    *Fix    `json:"fix,omitempty"`         // concrete fix-up (used as is)
-	Acts   []Act   `json:"acts,omitempty"`        // abstract fix-up, resolved by the worker against the table as it is at that step
-	Extra  int     `json:"extra_names,omitempty"` // with Acts: pass a names list = names in use + this many new names
-	Rename uint64  `json:"rename,omitempty"`      // with Acts: rename one label IN PLACE in the slice passed by an earlier fix-up and pass that same slice again (as demo/Demo.go does with NAMES)
-	BadKey *string `json:"bad_key,omitempty"`     // a malformed query whose panic is recovered
-	Why    string  `json:"why,omitempty"`
-	Forgot uint64  `json:"forgot,omitempty"` // non-zero: a record is added whose label the caller forgot to pass (index one past the names in use); a working-day walk over it panics and is recovered; then the caller repairs it by passing the extended names
-	Quiet  bool    `json:"quiet,omitempty"`  // no query of any kind between this step and the next one (fix-ups applied back to back)
+	Fix    *Fix      `json:"fix,omitempty"`         // concrete fix-up (used as is)
+	Acts   []Act     `json:"acts,omitempty"`        // abstract fix-up, resolved by the worker against the table as it is at that step
+	Extra  int       `json:"extra_names,omitempty"` // with Acts: pass a names list = names in use + this many new names
+	Rename uint64    `json:"rename,omitempty"`      // with Acts: rename one label IN PLACE in the slice passed by an earlier fix-up and pass that same slice again (as demo/Demo.go does with NAMES)
+	BadKey *string   `json:"bad_key,omitempty"`     // a malformed query whose panic is recovered
+	Why    string    `json:"why,omitempty"`
+	Forgot uint64    `json:"forgot,omitempty"` // non-zero: a record is added whose label the caller forgot to pass (index one past the names in use); a working-day walk over it panics and is recovered; then the caller repairs it by passing the extended names
+	Flood  *DayFlood `json:"flood,omitempty"`  // volume fault: Count by-day queries of distinct days (each compared with the model), nothing else
+	Quiet  bool      `json:"quiet,omitempty"`  // no query of any kind between this step and the next one (fix-ups applied back to back)
+}
+
+// DayFlood is a run of by-day queries over Count distinct civil days starting at From (YYYY-MM-DD), Stride days apart.
+type DayFlood struct {
+	From   string `json:"from"`
+	Count  int    `json:"count"`
+	Stride int    `json:"stride"`
 }
 
 // Act is one abstract fix-up segment.
@@ -162,4 +185,31 @@ type Result struct {
 	Sig         string            `json:"sig,omitempty"` // distinctness signature chosen by the property runner
 	NonTrivial  bool              `json:"nontrivial"`
 	Resolved    []string          `json:"resolved,omitempty"` // concrete form of abstract steps (C14 fix strings, C10 pillars)
+}
+
+// FloodOp is call i of a flood: the template with its year or civil day moved on by i*Stride. Years wrap inside
+// 1..9999; days are stepped by Go's time package in UTC (proleptic Gregorian - a date the library rejects is a
+// recovered panic like any other invalid input).
+func FloodOp(fl *Flood, i int) ops.Op {
+	op := fl.Op
+	tgt := &op
+	if op.Sub != nil {
+		inner := *op.Sub
+		op.Sub = &inner
+		tgt = &inner
+	}
+	a := append([]int(nil), tgt.A...)
+	switch fl.Unit {
+	case "year":
+		y := (a[0] - 1 + i*fl.Stride) % 9999
+		if y < 0 {
+			y += 9999
+		}
+		a[0] = y + 1
+	case "day":
+		t := time.Date(a[0], time.Month(a[1]), a[2], 0, 0, 0, 0, time.UTC).AddDate(0, 0, i*fl.Stride)
+		a[0], a[1], a[2] = t.Year(), int(t.Month()), t.Day()
+	}
+	tgt.A = a
+	return op
 }
